@@ -11,8 +11,8 @@ Oracles (not rational arithmetic): `np.nextafter` (`Ulp`), `math.pow(alpha, 1 / 
 `scores.bootstrap_ci(metric=[fnr(threshold_at_fpr(fpr)), fpr(threshold_at_fnr(fnr))])`, which is
 a parameter `boot` of the band functions (a function of the two rate arrays of the curve).
 
-NOT modelled: `fixed_width_band_ci` (tube-radius bisection on `np.interp` curves); its clauses
-of C16 are evaluated on the implementation only.
+`fixed_width_band_ci` (tube-radius bisection on `np.interp` curves) is modelled separately in
+SA/Model/FixedWidth.lean (theorems: SA/Theorems/C16Fwb.lean).
 -/
 import SA.Model.Roc
 
